@@ -183,9 +183,20 @@ def random_case(rng):
     perts = set()
     lines = []
     for _ in range(rng.randrange(0, 10)):
-        if rng.random() < 0.25:
+        r0 = rng.random()
+        if r0 < 0.2:
             lines.append(rng.choice(c05.FREE_TEXT))
             perts.add("free_text_line")
+        elif r0 < 0.3:
+            # a record shifted out of its columns by leading blanks (or by a leading character):
+            # not recognisable by its identifier window, hence a default line that must survive verbatim
+            shift = rng.choice([" ", "  ", "    ", "\t", "*", "& "])
+            lines.append(shift + typed_line(rng, rng.choice(regs), set()))
+            perts.add("shifted_record_as_free_text")
+        elif r0 < 0.34:
+            # an identifier text in the body of a free-text line
+            lines.append("note: see " + codec.dec_str(rng.choice(regs)["ident"]) + " records below\n")
+            perts.add("identifier_text_inside_free_text")
         else:
             lines.append(typed_line(rng, rng.choice(regs), perts))
     x = "".join(lines)
